@@ -334,7 +334,8 @@ def rule_f(R, ctx, rid="C16.f"):
                  "%s: start < end holds on every path to the append" % what if ok else
                  "%s is appended without a strict comparison of its own start and end on every path (%d other strict orderings "
                  "known here): an empty range can be stored" % (what, len(strict)), cs.loc())
-    R.floor(rid, "range pieces appended to range lists", n, 9)
+    # floor: the appends that no refactoring towards push_coalesced can remove (the helper's own, and whole-parameter inserts)
+    R.floor(rid, "range pieces appended to range lists", n, 4)
 
 
 def rule_h(R, ctx, rid="C16.h"):
@@ -470,7 +471,7 @@ def rule_j(R, ctx, rid="C16.j"):
                                            "the decision is off by one id", "%s:%s" % (fn.file, st["line"]))
             else:
                 R.ob(rid, fn, site, True, "raw bounds compared", "%s:%s" % (fn.file, st["line"]), nontrivial=False)
-    R.floor(rid, "comparisons that read a range bound in yrs/src/ids.rs", n, 44)
+    R.floor(rid, "comparisons that read a range bound in yrs/src/ids.rs", n, 30)
 
 
 def check(ctx, R):
